@@ -631,6 +631,9 @@ func main() {
 	ctx.Jobs("mutations", 16, func(j int) { mutations(j, 16) })
 	ctx.Jobs("edges", 16, func(j int) { edges(j, 16) })
 	ctx.Jobs("two-streams", 1, func(int) { twoStreams() })
+	if !ctx.IsChild() {
+		ctx.RacePairs("midicat")
+	}
 	ctx.Sample(map[string]interface{}{"stream": "5 B0ZZ\\n17 C0\\n", "expect": "error for the first line, then the record (17, C0)"})
 	ctx.Sample(map[string]interface{}{"records": "(-2147483648, 90 3C 40) (7, F8)", "fragmentation": "every single and every pair of split points; one byte per call"})
 	ctx.Guard(ctx.NontrivialCount() > 1000, "too few malformed lines / split points")
